@@ -1,0 +1,102 @@
+//go:build verif
+
+package spec_2022
+
+import (
+	enc "github.com/named-data/ndnd/std/encoding"
+)
+
+// Size of an NDNLPv2 frame, written from the TLV layout (used by the trusted promise of PacketEncoder.Init/Encode and by
+// the link-service contracts in fw/face, property C10).
+
+// size of a TLV-TYPE / TLV-LENGTH number
+func SpecVarLen(x uint64) int {
+	switch {
+	case x <= 0xfc:
+		return 1
+	case x <= 0xffff:
+		return 3
+	case x <= 0xffffffff:
+		return 5
+	}
+	return 9
+}
+
+// size of a NonNegativeInteger
+func SpecNNILen(x uint64) int {
+	switch {
+	case x <= 0xff:
+		return 1
+	case x <= 0xffff:
+		return 2
+	case x <= 0xffffffff:
+		return 4
+	}
+	return 8
+}
+
+// specWireSum: total number of bytes of the first k segments of a wire.
+func SpecWireSum(w enc.Wire, k int) int {
+	if k <= 0 {
+		return 0
+	}
+	return SpecWireSum(w, k-1) + len(w[k-1])
+}
+
+// specWireLen: total number of bytes of a wire (closed forms for the sizes that occur on the send path).
+func SpecWireLen(w enc.Wire) int {
+	if len(w) == 0 {
+		return 0
+	}
+	if len(w) == 1 {
+		return len(w[0])
+	}
+	return SpecWireSum(w, len(w))
+}
+
+// specLpHeaderLen: size of all header fields of an LpPacket (everything but the Fragment element). Header fields with
+// a nested structure (Nack, CachePolicy) and PrefixAnnouncement do not occur on the send path and are excluded by the
+// antecedent of the encoder contract below.
+func SpecLpHeaderLen(p *LpPacket) int {
+	return SpecOpt(p.Sequence != nil, 1+1+8) + // 0x51, fixed 8 bytes
+		SpecOptNNI(p.FragIndex, 1+1) + // 0x52
+		SpecOptNNI(p.FragCount, 1+1) + // 0x53
+		SpecOpt(p.PitToken != nil, 1+SpecVarLen(uint64(len(p.PitToken)))+len(p.PitToken)) + // 0x62
+		SpecOptNNI(p.IncomingFaceId, 3+1) + // 0x032C
+		SpecOptNNI(p.NextHopFaceId, 3+1) + // 0x0330
+		SpecOptNNI(p.CongestionMark, 3+1) + // 0x0340
+		SpecOpt(p.Ack != nil, 3+1+8) + // 0x0344
+		SpecOpt(p.TxSequence != nil, 3+1+8) + // 0x0348
+		SpecOpt(p.NonDiscovery, 3+1) // 0x034C, empty
+}
+
+// specOpt: size contribution n of an optional element that is present iff c.
+func SpecOpt(c bool, n int) int {
+	if c {
+		return n
+	}
+	return 0
+}
+
+// specOptNNI: size of an optional NonNegativeInteger element whose TL takes tl bytes.
+func SpecOptNNI(v *uint64, tl int) int {
+	if v != nil {
+		return tl + SpecNNILen(*v)
+	}
+	return 0
+}
+
+// specLpValueLen: TLV-LENGTH of the LpPacket element.
+func SpecLpValueLen(p *LpPacket) int {
+	return SpecLpHeaderLen(p) + SpecOpt(p.Fragment != nil, 1+SpecVarLen(uint64(SpecWireLen(p.Fragment)))+SpecWireLen(p.Fragment)) // 0x50
+}
+
+// specLpFrameLen: size of the whole frame: LpPacket TLV (type 0x64).
+func SpecLpFrameLen(p *LpPacket) int {
+	return 1 + SpecVarLen(uint64(SpecLpValueLen(p))) + SpecLpValueLen(p)
+}
+
+// specSimpleLp: the LpPacket has none of the fields whose size is not described by specLpHeaderLen.
+func SpecSimpleLp(p *LpPacket) bool {
+	return p.Nack == nil && p.CachePolicy == nil && p.PrefixAnnouncement == nil
+}
